@@ -10,9 +10,10 @@ import mb_common  # noqa: E402
 ASSUMPTIONS = [
     "Setup is modelled as OSetup (old connection closed, setup mutex held) / OSetupEnd (old connection Closed, or kill timeout)",
     "a connection reaches Closed only after its Terminate (broker/client.go cleanup order); a *Client calls Setup once",
-    "the uniqueness invariant is stated for histories without kill timeout (Terminate removes the active entry by client id): "
-    "C13_unique_state_kill_timeout_refuted shows the state reached otherwise; only its partial-function part is proved, the rest is "
-    "evaluated on every observed state of the implementation",
+    "the uniqueness invariant is stated (and proved) for histories without kill timeout and without backend Close: Terminate removes the "
+    "active-clients entry by client id, so a newcomer whose Setup failed removes the old connection's entry "
+    "(C13_unique_state_kill_timeout_refuted / _close_refuted; reproduced on the real backend); the invariant is also evaluated on every "
+    "observed state of the implementation in such histories",
 ]
 
 
